@@ -234,6 +234,25 @@ impl<'a> Gen<'a> {
                     let u = self.macro_use(k.prints && !in_proc, k.int3);
                     out.push(u);
                 }
+                6 if !in_loop && self.rng.chance(1, 2) => {
+                    // a string instruction, plain or repeated: sets up its own registers
+                    let (op, rep, repmn) = *self.rng.pick(&crate::checks2::STR_COMBOS);
+                    let w: u8 = if self.rng.chance(1, 2) { 8 } else { 16 };
+                    if in_proc {
+                        out.push(Item::Ins(Ins::Push { src: Opnd::Reg16("cx") }));
+                    }
+                    out.push(Item::Ins(Ins::Mov { w: 16, dst: Opnd::Reg16("si"), src: Opnd::Imm(0x4000 + self.rng.below(32) as i32) }));
+                    out.push(Item::Ins(Ins::Mov { w: 16, dst: Opnd::Reg16("di"), src: Opnd::Imm(0x4020 + self.rng.below(32) as i32) }));
+                    out.push(Item::Ins(Ins::Mov { w: 16, dst: Opnd::Reg16("cx"), src: Opnd::Imm(self.rng.below(5) as i32) }));
+                    if self.rng.chance(1, 3) {
+                        out.push(Item::Ins(Ins::Ctl { op: "std" }));
+                    }
+                    out.push(Item::Ins(Ins::Str { op, w, rep, repmn }));
+                    out.push(Item::Ins(Ins::Ctl { op: "cld" }));
+                    if in_proc {
+                        out.push(Item::Ins(Ins::Pop { dst: Opnd::Reg16("cx") }));
+                    }
+                }
                 10 => {
                     // a label nobody jumps to, or a backward-looking label (already passed) is harmless
                     let l = self.fresh("u");
